@@ -7,6 +7,7 @@ Local Open Scope Qc_scope.
 
 Record bcase := {
   b_t0 : Qc; b_dt : Qc; b_imex : bool; b_jacobi : bool;
+  b_mode : nat;                                 (* 0: one iteration from the pre_iteration state; 1 / 2: the fine_only / pfasst_burnin predictor from the pre_predict state *)
   b_levels : list mlevel;                       (* level 0 first; ml_pre / ml_post unused, ml_pre = nsweeps of the level *)
   b_xfers : list mxfer;                         (* transfer l <-> l+1 *)
   b_ends : list (bool * bool * list Qc);        (* per level: right_is_node, do_coll_update, weights (index 0 unused) *)
@@ -40,7 +41,12 @@ Section BRun.
 
   (* the stages of one iteration after IT_CHECK, followed by the communication of the next IT_CHECK (where post_iteration is
      observed) *)
-  Definition b_ops : list (@op) := iteration_body P L nsw (b_jacobi C) ++ it_check_ops P.
+  Definition b_ops : list (@op) :=
+    match b_mode C with
+    | 0%nat => iteration_body P L nsw (b_jacobi C) ++ it_check_ops P
+    | 1%nat => predict_ops P L PredFineOnly
+    | _ => predict_ops P L PredBurnIn
+    end.
 
   Definition b_run : list Qc :=
     let B := run_ops 0 Qcplus Qcmult Qcminus Qc_eqb (b_imex C) lev xf tstart lend b_ops init in
